@@ -423,6 +423,28 @@ fn c07_c09__try_to_integer() {
     std::mem::forget(r);
 }
 
+/// C07: cut / join / cast on an operand of the wrong (scalar) kind: error naming the operand, operand unchanged
+fn chk_wrong_kind(a: S) {
+    let which: u8 = kani::any();
+    kani::assume(which < 3);
+    if let S::F(_) = a {
+        kani::assume(which < 2); // cast on a number is valid (number -> character)
+    }
+    let mut va = mk(a);
+    let r = match which {
+        0 => va.split(None),
+        1 => va.join(None),
+        _ => va.cast(None),
+    };
+    let ok = match &r {
+        Err(ValError::InvalidOperationForType(_, v)) => is(v, a) && is(&va, a),
+        _ => false,
+    };
+    assert!(ok);
+    std::mem::forget((va, r));
+}
+singles!(c07__wrong_kind_unchanged, chk_wrong_kind);
+
 // ---------------------------------------------------------------- canaries (must FAIL: vacuity guard)
 #[kani::proof]
 #[kani::unwind(2)]
